@@ -1,12 +1,15 @@
 #!/bin/bash
-# tools/seedrun.sh <worktree> <i> <Cnn> [extra property ids to also run...]
+# tools/seedrun.sh <worktree> <i> <Cnn> [--as <j>] [extra property ids to also run...]
 # Confirms a seeded change (seed<i>.diff + demo<i>.py in <worktree>) and runs the checks against it:
 #  1. clean worktree: demo passes;  2. patch applied in the worktree: suite still 1178 passed, demo fails;
 #  3. patch applied to /repo: ./check <Cnn> --tier quick (must exit 1), then /repo restored.
 # Stores patch, demo and meta.json under /verif/seeded/<Cnn>-<i>/.
 set -u
-WT=$1; I=$2; P=$3; shift 3; EXTRA="$*"
-OUT=/verif/seeded/$P-$I
+WT=$1; I=$2; P=$3; shift 3
+J=$I
+if [ "${1:-}" = "--as" ]; then J=$2; shift 2; fi
+EXTRA="$*"
+OUT=/verif/seeded/$P-$J
 mkdir -p "$OUT"
 cd "$WT" || exit 2
 git checkout -q -- src 2>/dev/null
@@ -20,14 +23,25 @@ unset PYTHONPATH
 cp seed$I.diff "$OUT/patch.diff"; cp demo$I.py "$OUT/demo.py"; [ -f seed$I.md ] && cp seed$I.md "$OUT/README.md"
 cd /verif
 results="{"
-if git -C /repo apply "$OUT/patch.diff"; then
+APPLY_OK=0
+if [ -n "${SEED_SCRATCH:-}" ]; then
+  # a background run is using /repo: use a scratch copy of /repo's sources instead (same effect for the checks)
+  SCR=$(mktemp -d /tmp/vfseed.XXXXXX); cp -r /repo/src "$SCR/src"
+  (cd "$SCR" && git init -q . >/dev/null 2>&1; git apply "$OUT/patch.diff") && APPLY_OK=1
+  export VF_SRC="$SCR/src"
+  HOW="scratch copy of /repo/src with the patch applied, passed to the checks as VF_SRC"
+else
+  git -C /repo apply "$OUT/patch.diff" && APPLY_OK=1
+  HOW="git -C /repo apply, ./check <id> --tier quick, git -C /repo checkout -- ."
+fi
+if [ $APPLY_OK = 1 ]; then
   for q in $P $EXTRA; do
     out=$(./check $q --tier quick --no-evidence 2>&1); rc=$?
     msg=$(echo "$out" | grep -B1 -m1 '^VIOLATION' | head -1 | cut -c1-300 | tr '"\\' "' ")
     results="$results\"$q\": {\"exit\": $rc, \"first\": \"$msg\"},"
     find /verif/replays -maxdepth 1 -name "$q-*.json" -newer "$OUT/patch.diff" -delete 2>/dev/null
   done
-  git -C /repo checkout -- .
+  if [ -n "${SEED_SCRATCH:-}" ]; then rm -rf "$SCR"; unset VF_SRC; else git -C /repo checkout -- .; fi
 else
   results="$results\"error\": \"patch does not apply to /repo\","
 fi
@@ -35,7 +49,7 @@ results="${results%,}}"
 files=$(grep '^+++ b/' "$OUT/patch.diff" | sed 's#+++ b/##' | tr '\n' ' ')
 cat > "$OUT/meta.json" <<EOF
 {
- "id": "$P-$I",
+ "id": "$P-$J",
  "property": "$P",
  "origin": "written by a fresh sub-agent that was given only the property text and a scratch worktree",
  "files_changed": "$files",
@@ -43,10 +57,10 @@ cat > "$OUT/meta.json" <<EOF
   "demo_exit_on_clean_tree": $clean_demo,
   "demo_exit_with_patch": $seeded_demo,
   "test_suite_with_patch": "$suite",
-  "how": "tools/seedrun.sh: worktree with PYTHONPATH=<wt>/src; baseline pytest command; then git -C /repo apply, ./check <id> --tier quick, git -C /repo checkout -- ."
+  "how": "tools/seedrun.sh: worktree with PYTHONPATH=<wt>/src; baseline pytest command; then $HOW"
  },
  "checks": $results
 }
 EOF
-echo "$P-$I: clean_demo=$clean_demo seeded_demo=$seeded_demo suite='$suite' checks=$results" | cut -c1-600
+echo "$P-$J: clean_demo=$clean_demo seeded_demo=$seeded_demo suite='$suite' checks=$results" | cut -c1-600
 git -C /repo status --short | head -3
